@@ -17,10 +17,21 @@ class K:
     def __hash__(self): return 7
     def __eq__(self, o): return isinstance(o, K) and o.i == self.i
     def __repr__(self): return f"K{self.i}"
-KEYS = [0, K(0), K(1), kw.keyword("a")]
+KEYS = [0, K(0), K(1), None, kw.keyword("a")]   # nil is a legal key / member
+VALS = [0, None, False]                            # nil and false are legal values (and are not "absent")
 META = lmap.map({kw.keyword("m"): 1})
 def elems(x):
     return seq_list(x)
+def S(x, y):
+    """strict value comparison: 0 is not false, nil is nothing but nil"""
+    return type(x) is type(y) and x == y
+def V(b):
+    """operand value, looked up only by the operations that use it (an unused operand costs no path)"""
+    return VALS[b % len(VALS)]
+def KEY(a):
+    return KEYS[a % len(KEYS)]
+def SL(xs, ys):
+    return len(xs) == len(ys) and all(S(x, y) for x, y in zip(xs, ys))
 class Tracker:
     """every value ever produced, with the model it must (still) equal at the end"""
     def __init__(self, kind, seed):
@@ -36,6 +47,8 @@ class Tracker:
         elif kind == "set":
             self.add(lset.set(base), set(base), None)
         else:
+            if seed == 4:   # small, but 0 / 32 / 1024 share hash bits, so the trie already has interior nodes
+                base = [0, 32, 1024, 5]
             self.add(lmap.map({k: k for k in base}), {k: k for k in base}, None)
     def add(self, v, model, meta):
         self.vals.append((v, model, meta))
@@ -54,37 +67,36 @@ class Tracker:
         return True
     def matches(self, v, model):
         if self.kind in ("vector", "list", "queue"):
-            return elems(v) == list(model) and F["count"](v) == len(model)
+            return SL(elems(v), list(model)) and F["count"](v) == len(model)
         if self.kind == "set":
             got = elems(v)
-            return len(got) == len(model) and all(any(g == m for m in model) for g in got) and F["count"](v) == len(model)
+            return len(got) == len(model) and all(g in model for g in got) and F["count"](v) == len(model)
         got = {k: val for k, val in (v.items() if v is not None else [])}
-        return len(got) == len(model) and all(any(k == mk and got[k] == mv for mk, mv in model.items()) for k in got)
+        return len(got) == len(model) and all(k in model and S(got[k], model[k]) for k in got) and F["count"](v) == len(model)
     def step(self, op, src, a, b):
         v, model, meta = self.vals[src % len(self.vals)]
-        key, val = KEYS[a % len(KEYS)], b
         kind = self.kind
         if op == 0:      # conj
             if kind == "map":
-                return self.derived(F["conj"](v, vec.vector([key, val])), {**model, key: val})
+                return self.derived(F["conj"](v, vec.vector([KEY(a), V(b)])), {**model, KEY(a): V(b)})
             if kind == "set":
-                return self.derived(F["conj"](v, key), set(model) | {key})
+                return self.derived(F["conj"](v, KEY(a)), set(model) | {KEY(a)})
             if kind == "list":
-                return self.derived(F["conj"](v, val), [val] + list(model))
-            return self.derived(F["conj"](v, val), list(model) + [val])
+                return self.derived(F["conj"](v, V(b)), [V(b)] + list(model))
+            return self.derived(F["conj"](v, V(b)), list(model) + [V(b)])
         if op == 1:      # assoc / disj
             if kind == "map":
-                return self.derived(F["assoc"](v, key, val), {**model, key: val})
+                return self.derived(F["assoc"](v, KEY(a), V(b)), {**model, KEY(a): V(b)})
             if kind == "vector":
                 i = a % (len(model) + 1)
-                m2 = list(model); (m2.append(val) if i == len(model) else m2.__setitem__(i, val))
-                return self.derived(F["assoc"](v, i, val), m2)
+                m2 = list(model); (m2.append(V(b)) if i == len(model) else m2.__setitem__(i, V(b)))
+                return self.derived(F["assoc"](v, i, V(b)), m2)
             if kind == "set":
-                return self.derived(F["disj"](v, key), set(x for x in model if not (x == key)))
+                return self.derived(F["disj"](v, KEY(a)), set(x for x in model if not (x == KEY(a))))
             return True
         if op == 2:      # dissoc / pop
             if kind == "map":
-                return self.derived(F["dissoc"](v, key), {k: x for k, x in model.items() if not (k == key)})
+                return self.derived(F["dissoc"](v, KEY(a)), {k: x for k, x in model.items() if not (k == KEY(a))})
             if kind in ("vector", "list", "queue") and model:
                 m2 = list(model)[:-1] if kind == "vector" else list(model)[1:]
                 return self.derived(F["pop"](v), m2)
@@ -96,38 +108,38 @@ class Tracker:
             return self.add(w, model, META)
         if op == 4:      # into / merge / empty
             if kind == "map":
-                return self.derived(F["merge"](v, lmap.map({key: val})), {**model, key: val})
+                return self.derived(F["merge"](v, lmap.map({KEY(a): V(b)})), {**model, KEY(a): V(b)})
             if kind == "set":
-                return self.derived(F["into"](v, vec.vector([key])), set(model) | {key})
+                return self.derived(F["into"](v, vec.vector([KEY(a)])), set(model) | {KEY(a)})
             if kind == "list":
-                return self.derived(F["into"](v, vec.vector([val, val + 1])), [val + 1, val] + list(model))
-            return self.derived(F["into"](v, vec.vector([val, val + 1])), list(model) + [val, val + 1])
+                return self.derived(F["into"](v, vec.vector([V(b), V(b + 1)])), [V(b + 1), V(b)] + list(model))
+            return self.derived(F["into"](v, vec.vector([V(b), V(b + 1)])), list(model) + [V(b), V(b + 1)])
         if op == 5:      # transient ... persistent! (vector / map / set only): the source must stay as it was
             if kind == "vector":
-                t = F["transient"](v); t = F["conj!"](t, val); t = F["assoc!"](t, 0, val) if model else t
-                m2 = list(model) + [val]
-                if model: m2[0] = val
+                t = F["transient"](v); t = F["conj!"](t, V(b)); t = F["assoc!"](t, 0, V(b)) if model else t
+                m2 = list(model) + [V(b)]
+                if model: m2[0] = V(b)
                 return self.derived(F["persistent!"](t), m2)
             if kind == "map":
-                t = F["transient"](v); t = F["assoc!"](t, key, val); t = F["dissoc!"](t, KEYS[(a + 1) % len(KEYS)])
-                m2 = {**model, key: val}
+                t = F["transient"](v); t = F["assoc!"](t, KEY(a), V(b)); t = F["dissoc!"](t, KEYS[(a + 1) % len(KEYS)])
+                m2 = {**model, KEY(a): V(b)}
                 m2 = {k: x for k, x in m2.items() if not (k == KEYS[(a + 1) % len(KEYS)])}
                 return self.derived(F["persistent!"](t), m2)
             if kind == "set":
-                t = F["transient"](v); t = F["conj!"](t, key); t = F["disj!"](t, KEYS[(a + 1) % len(KEYS)])
-                m2 = set(x for x in (set(model) | {key}) if not (x == KEYS[(a + 1) % len(KEYS)]))
+                t = F["transient"](v); t = F["conj!"](t, KEY(a)); t = F["disj!"](t, KEYS[(a + 1) % len(KEYS)])
+                m2 = set(x for x in (set(model) | {KEY(a)}) if not (x == KEYS[(a + 1) % len(KEYS)]))
                 return self.derived(F["persistent!"](t), m2)
             return True
         if op == 6:      # lookups
             if kind == "map":
-                want = [mv for mk, mv in model.items() if mk == key]
-                return F["get"](v, key, "nf") == (want[0] if want else "nf") and F["contains?"](v, key) is bool(want)
+                want = [mv for mk, mv in model.items() if mk == KEY(a)]
+                return S(F["get"](v, KEY(a), "nf"), (want[0] if want else "nf")) and F["contains?"](v, KEY(a)) is bool(want)
             if kind == "set":
-                return F["contains?"](v, key) is any(x == key for x in model)
+                return F["contains?"](v, KEY(a)) is any(x == KEY(a) for x in model)
             if kind == "vector":
                 i = a % (len(model) + 1)
-                return F["nth"](v, i, "nf") == (model[i] if i < len(model) else "nf") and F["peek"](v) == (model[-1] if model else None)
-            return F["peek"](v) == (model[0] if model else None)
+                return S(F["nth"](v, i, "nf"), (model[i] if i < len(model) else "nf")) and S(F["peek"](v), (model[-1] if model else None))
+            return S(F["peek"](v), (model[0] if model else None))
         if op == 7:      # empty
             e = F["empty"](v)
             return self.derived(e, type(model)() if not isinstance(model, list) else [])
@@ -137,9 +149,9 @@ def DIAG(**k):
 '''
 
 
-def spec(kind, seed, nops, timeout, first_op=None):
+def spec(kind, seed, nops, timeout, first_op=None, nkeys=5, nvals=3):
     args = ", ".join(f"o{j}: int, s{j}: int, a{j}: int, b{j}: int" for j in range(nops))
-    pre = [x for j in range(nops) for x in (f"0 <= o{j} < 8", f"0 <= s{j} <= {j}", f"0 <= a{j} < 4", f"0 <= b{j} < 2")]
+    pre = [x for j in range(nops) for x in (f"0 <= o{j} < 8", f"0 <= s{j} <= {j}", f"0 <= a{j} < {nkeys}", f"0 <= b{j} < {nvals}")]
     if first_op is not None:
         pre[0] = f"o0 == {first_op}"
     ops = ", ".join(f"(o{j}, s{j}, a{j}, b{j})" for j in range(nops))
@@ -149,8 +161,11 @@ def spec(kind, seed, nops, timeout, first_op=None):
             return False
     return t.check_all()'''
     name = f"{kind}/seed={seed}/history-len={nops}" + (f"/first-op={first_op}" if first_op is not None else "")
+    keys = ["0", "K0 and K1 with colliding hashes", "K1", "nil", "a keyword"][:nkeys]
+    keys.remove("K1")
     return Spec(name, harness(args, body, pre=pre, module_code=MODULE, warm=[]), timeout=timeout,
-                bound=f"{nops} operations, any earlier value as source, 4 keys (two with colliding hashes), seed size {seed}", meta={"kind": kind})
+                bound=f"{nops} operations, any earlier value as source, keys {{{', '.join(keys)}}}, values {{{', '.join(['0', 'nil', 'false'][:nvals])}}}, seed size {seed}",
+                meta={"kind": kind})
 
 
 def run(rep, tier, seed):
@@ -165,11 +180,17 @@ def run(rep, tier, seed):
     to = 90 if quick else 600
     specs = []
     for kind in ("vector", "map", "set", "list", "queue"):
-        seeds = ((34,) if kind in ("vector", "map") else (3,)) if quick else ((0, 34) if kind in ("vector", "map") else (0, 3))
+        big = {"vector": 34, "map": 4}.get(kind, 3)
+        seeds = (big,) if quick else ((0, 4, 34) if kind == "map" else (0, big))
         for sd in seeds:
-            specs += [spec(kind, sd, nops, to, first_op=f) for f in range(8)]
-    rep.bounds = {"history length": nops, "seeds": "empty and 34 elements (interior trie nodes) for vector/map, 0 and 3 otherwise",
-                  "keys": "0, two objects with colliding hashes, a keyword"}
+            if quick:
+                # length 2 on the reduced domain (4 keys incl. nil, values 0/nil) + every single operation on the full domain
+                specs += [spec(kind, sd, nops, to * 2 if kind == "map" else to, first_op=f, nkeys=4, nvals=2) for f in range(8)]
+                specs += [spec(kind, s1, 1, to) for s1 in ((0, sd) if sd else (0,))]
+            else:
+                specs += [spec(kind, sd, nops, to, first_op=f) for f in range(8)]
+    rep.bounds = {"history length": nops, "seeds": "vector: 34 elements (two trie levels); map: keys 0/32/1024/5 (shared hash bits: interior nodes; 34 entries thorough-only); 3 otherwise; empty seeds in the length-1 family and the thorough tier",
+                  "keys": "0, two objects with colliding hashes, a keyword, nil", "values": "0, nil, false"}
     rep.outside = ["the C cores of pyrsistent / immutables are executed, not encoded", "longer histories", "update / nth on maps"]
     rep.trusted += ["crosshair-tool 0.0.110 + z3", "tuple / dict / set models in vlib/props/c04.py"]
     rep.extra["explanation"] = "solver-chosen operation codes, source values (branching histories) and operands; every value ever produced is re-checked at the end"
